@@ -5,6 +5,7 @@ applies patch.diff in a scratch worktree of /repo, builds the touched packages, 
 quick check against it (VERIF_REPO) and expects exit 0 and no VIOLATION line; stores patch and verdict
 under /verif/benign/<id>/.  (Counterpart of tools/seedeval.py: there the check must raise an alarm,
 here it must stay quiet.)"""
+import hashlib
 import json
 import os
 import shutil
@@ -58,6 +59,8 @@ def main():
     json.dump(res, open(os.path.join(dst, "meta.json"), "w"), indent=1)
     print(bid, "quiet" if res.get("check", {}).get("quiet") else "ALARM", res.get("check", {}).get("violation_lines"))
     sh("git -C /repo worktree remove --force %s" % WT)
+    # the per-worktree binaries tools/vlib.py built for this tree
+    shutil.rmtree(os.path.join(VERIF, ".build", "bin-" + hashlib.sha1(WT.encode()).hexdigest()[:8]), ignore_errors=True)
 
 
 if __name__ == "__main__":
